@@ -274,7 +274,7 @@ func (okStatusErr) GRPCStatus() *status.Status {
 
 func retErr(op string, ctx context.Context) error {
 	switch {
-	case op == "ret:ok" || op == "ret:nil":
+	case op == "ret:ok" || op == "ret:nil" || op == "ret:tnil":
 		return nil
 	case strings.HasPrefix(op, "ret:st:"):
 		c, _ := strconv.Atoi(op[len("ret:st:"):])
@@ -368,6 +368,9 @@ func (e *Env) unaryHandler(i int, ctx context.Context, dec func(interface{}) err
 			}
 			if op == "ret:nil" {
 				return nil, nil
+			}
+			if op == "ret:tnil" {
+				return (*Msg)(nil), nil // a typed nil pointer: no response either
 			}
 			rr.SrvSendAttempt = append(rr.SrvSendAttempt, tag(i, "s", 0))
 			return newMsg(i, "s", 0), nil
